@@ -218,7 +218,7 @@ func c20TR(r *rand.Rand, name string, emit bool, d int) string {
 func init() {
 	run.Register(&run.Prop{
 		ID: "C20", Level: "exploration", MinNontrivial: 100,
-		Rule: "a case is (iteration form, mode, n). gen: one live iterator is advanced by the real VM; the interpreter footprint (lengths of the data stack, path stack, scope stack and register file backing arrays — high-water marks — plus fork-stack capacity, read through the verif hook) is read after n and after 8n outputs and must not grow by more than 16 slots; loop: the form is run to its first result with $n = n and $n = 8n and the footprints compared the same way. Forms: every iteration builtin named by the property (range, while, until, repeat, recurse, limit, first, last, reduce, foreach, inputs over an endless iterator), each nested one level inside others, and parameterless self-recursive definitions whose recursive call is in syntactic tail position (branch of if/elif/else, right of a pipe whose left side is single-output, right operand of //, last operand of a comma, body of `as` incl. destructuring, after local defs, inner tail-recursive definitions). A prefix of the outputs / the result is also compared with the reference interpreter so that constant space is not obtained by dropping values. Non-trivial = every distinct (form, mode, n).",
+		Rule:        "a case is (iteration form, mode, n). gen: one live iterator is advanced by the real VM; the interpreter footprint (lengths of the data stack, path stack, scope stack and register file backing arrays — high-water marks — plus fork-stack capacity, read through the verif hook) is read after n and after 8n outputs and must not grow by more than 16 slots; loop: the form is run to its first result with $n = n and $n = 8n and the footprints compared the same way. Forms: every iteration builtin named by the property (range, while, until, repeat, recurse, limit, first, last, reduce, foreach, inputs over an endless iterator), each nested one level inside others, and parameterless self-recursive definitions whose recursive call is in syntactic tail position (branch of if/elif/else, right of a pipe whose left side is single-output, right operand of //, last operand of a comma, body of `as` incl. destructuring, after local defs, inner tail-recursive definitions). A prefix of the outputs / the result is also compared with the reference interpreter so that constant space is not obtained by dropping values. Non-trivial = every distinct (form, mode, n).",
 		Assumptions: []string{"interpreter state = the five structures exposed by VerifFootprint; Go heap retained elsewhere is not measured", "tail position is syntactic and fork-free; calls under try/label/left of // and functions with parameters are outside the statement"},
 		Body: func(c *run.Ctx) {
 			ns := []int{1000}
